@@ -143,7 +143,8 @@ def r2_bucket_wiring(ctx):
         if "to_xarray" in norm(v):
             ds_stores.append((s, t, v))
     if not ds_stores:
-        raise AnalysisError("_extract_datatree_2d: no `dataset[key] = ...to_xarray()` store (unknown construct)")
+        ctx.fail(EXT + "#per-bucket", "the per-step dataset is not built bucket by bucket from each container's own to_xarray() (e.g. Detector.to_xarray() skips an all-zero charge bucket and uninitialised buckets): a step can lose its slice of a bucket", where=f, node=f.node)
+        return
     stored_keys: set[str] = set()
     for s, t, v in ds_stores:
         lp = enclosing_loop(s)
